@@ -141,7 +141,7 @@ META.update({
   note="The io sink/source is a fixed array cursor (ghost); std::io::Error construction paths are stubbed (alloc::fmt::format).",
   design="4/C18"),
  "C19": dict(
-  technique="the C01-C08 obligations re-discharged under --features checks / no_copy_impls (Kani/CBMC, Verus with the checks-configuration precondition) + should_panic harnesses for dirty arguments",
+  technique="the C01-C08 obligations re-discharged under --features checks / no_copy_impls (Kani/CBMC, Verus with the checks-configuration precondition) + must-panic harnesses for dirty arguments (the only failed check is the library's own panic)",
   category="proof",
   text="Proof that under the checks feature write_bits panics when and only when the value has a bit at or above the width (every word, BE/LE), that every library-issued write (codes, copies, byte writes) satisfies the cleanliness precondition (the abstract model and the Verus trait contract carry `value < 2^n` in this configuration), "
        "and that the same postconditions hold for the writer, reader, copy and code obligations with each feature set, hence identical observable results. Overflow and debug assertions are failures in both verifiers, which covers the profile dimension.",
